@@ -63,6 +63,8 @@ class Contract:
     result_field_of: str = "self"  # for field-element results: which parameter's field the result lives in
     hints: dict = dataclasses.field(default_factory=dict)  # return ordinal -> tuple of (e, res, w) -> formula
     note: str = ""
+    extra: callable = None  # (cfg, module) -> [(label, z3 formula)]: per-configuration axiom instances / ground facts
+    caches: dict = dataclasses.field(default_factory=dict)  # attribute name -> (ex, base, key, st) -> value the memo table holds for key
 
     @property
     def short(self):
